@@ -52,7 +52,10 @@ impl GlobFilter {
     }
 
     fn is_excluded(&self, path: &Path) -> bool {
-        self.exclude_patterns.is_match(path)
+        // Patterns are written relative to the project root: match the walked path without
+        // its leading `./`
+        self.exclude_patterns
+            .is_match(crate::output::path::normalize_for_matching(path))
     }
 }
 
